@@ -246,7 +246,11 @@ def gen_cases(sets, meta, tier):
 
 
 # ---------------------------------------------------------------------- oracle
-def asan_key(text):
+def asan_key(text, ops=''):
+    if 'heap-use-after-free' in text and 'vorbis_synthesis_blockin' in text and '_vorbis_block_ripcord' in text:
+        return 'blockin_after_rejected_packet_uaf'
+    if 'in run_ops' in text.split('allocated by')[0] and 'vorbis_' not in text.split('allocated by')[0] and ' L' in (' ' + ops):
+        return 'read_without_data_then_lapout'
     m = re.search(r'ERROR: AddressSanitizer: ([\w-]+)', text)
     kind = m.group(1) if m else ('ubsan' if 'runtime error' in text else 'unknown')
     fr = re.findall(r'#\d+ 0x[0-9a-f]+ in (\w+)', text)
@@ -280,7 +284,7 @@ def judge(chk, fam, si, name, ops, line, stats, plateau):
         rc = int(m.group(1))
         txt = json.loads(m.group(2)) if m else ''
         if rc == 77 or 'Sanitizer' in txt or 'runtime error' in txt:
-            chk.violation(named(name, asan_key(txt) + (':extreme' if fam == 'extreme' else '')), f'{name}: "{ops}" -> sanitizer report: {txt[-600:]}', rep)
+            chk.violation(named(name, asan_key(txt, ops) + (':extreme' if fam == 'extreme' else '')), f'{name}: "{ops}" -> sanitizer report: {txt[-600:]}', rep)
         else:
             chk.violation(named(name, f'signal:{rc}:{fam}'), f'{name}: "{ops}" -> process died rc={rc} {txt[-300:]}', rep)
         return
